@@ -168,6 +168,86 @@ theorem metaLoop_written (cfg : TableCfg) (dl : Nat) (fb : Option Bytes) (hfb : 
     rw [this]
     simp
 
+/-- the written file with the raw bytes `M` in the place of the metaindex block (payload ‖ type ‖ checksum) -/
+def tableFileM (cfg : TableCfg) (cs : List (List KV)) (fb : Option Bytes) (M : Bytes) : Bytes :=
+  dataBytes cfg cs ++ filterSection cfg fb ++ M ++ withTrailer cfg.cksum (ixB cfg cs) ++
+    footer (metaBHOf cfg cs fb) (indexBHOf cfg cs fb)
+
+theorem tableFile_eqM (cfg : TableCfg) (cs : List (List KV)) (fb : Option Bytes) :
+    tableFile cfg cs fb = tableFileM cfg cs fb (withTrailer cfg.cksum (metaB cfg cs fb)) := rfl
+
+theorem tableFileM_length (cfg : TableCfg) (cs : List (List KV)) (fb : Option Bytes) (M : Bytes)
+    (hM : M.length = (metaB cfg cs fb).length + 5) :
+    (tableFileM cfg cs fb M).length = (tableFile cfg cs fb).length := by
+  rw [tableFile_eqM]
+  simp only [tableFileM, List.length_append, withTrailer_length, hM]
+
+theorem decodeGo_true (src : Bytes) :
+    BH.decodeGo true src = match BH.decode src with
+      | some (bh, n) => .ok bh n
+      | none => .bad := by
+  unfold BH.decodeGo BH.decode
+  cases readUvarint src with
+  | none => simp
+  | some p =>
+    obtain ⟨off, n⟩ := p
+    simp only
+    cases readUvarint (src.drop n) with
+    | none => simp
+    | some q => rfl
+
+/-- the footer part and the index read of `NewReader` on a written file whose metaindex block region holds `M` -/
+theorem open_facts (cfg : TableCfg) (hck : Cksum32 cfg.cksum) (cs : List (List KV)) (fb : Option Bytes) (M : Bytes)
+    (hM : M.length = (metaB cfg cs fb).length + 5) (hsz : (tableFile cfg cs fb).length < 2 ^ 32) :
+    Table.footerHandlesX .repaired (tableFileM cfg cs fb M) = .ok (metaBHOf cfg cs fb, indexBHOf cfg cs fb) ∧
+    (metaBHOf cfg cs fb).inFile ((tableFileM cfg cs fb M).length - Gen.footerLen) = true ∧
+    (indexBHOf cfg cs fb).inFile ((tableFileM cfg cs fb M).length - Gen.footerLen) = true ∧
+    readBlock cfg.cksum (tableFileM cfg cs fb M) (indexBHOf cfg cs fb) true =
+      some (layoutR (enc 1 (ixE cfg 0 cs [])) (restartsOf 1 (ixE cfg 0 cs []))) := by
+  have S := sizes_of cfg cs fb hsz
+  have h48 : Gen.footerLen = 48 := rfl
+  have h8 : Gen.tableMagic.length = 8 := rfl
+  have hlen : (tableFileM cfg cs fb M).length = (dataBytes cfg cs ++ filterSection cfg fb ++
+      M ++ withTrailer cfg.cksum (ixB cfg cs)).length + 48 := by
+    simp only [tableFileM]
+    rw [List.length_append, S.foot]
+  have hfoot : (tableFileM cfg cs fb M).drop ((tableFileM cfg cs fb M).length - 48) =
+      footer (metaBHOf cfg cs fb) (indexBHOf cfg cs fb) := by
+    rw [hlen]
+    simp only [tableFileM]
+    rw [List.drop_left' (by omega)]
+  have hmagic : (footer (metaBHOf cfg cs fb) (indexBHOf cfg cs fb)).drop (48 - 8) = Gen.tableMagic := by
+    have hm10 := BH.encode_length_le _ S.mOff S.mLen
+    have hi10 := BH.encode_length_le _ S.iOff S.iLen
+    simp only [footer, h48, h8]
+    rw [List.drop_left' (by simp; omega)]
+  have hdm : BH.decode (footer (metaBHOf cfg cs fb) (indexBHOf cfg cs fb)) =
+      some (metaBHOf cfg cs fb, (metaBHOf cfg cs fb).encode.length) := by
+    simp only [footer, List.append_assoc]
+    exact BH.decode_encode _ _ (by have := S.mOff; omega) (by have := S.mLen; omega)
+  have hdi : BH.decode ((footer (metaBHOf cfg cs fb) (indexBHOf cfg cs fb)).drop (metaBHOf cfg cs fb).encode.length) =
+      some (indexBHOf cfg cs fb, (indexBHOf cfg cs fb).encode.length) := by
+    simp only [footer, List.append_assoc, List.drop_left]
+    exact BH.decode_encode _ _ (by have := S.iOff; omega) (by have := S.iLen; omega)
+  have hri : readBlock cfg.cksum (tableFileM cfg cs fb M) (indexBHOf cfg cs fb) true =
+      some (layoutR (enc 1 (ixE cfg 0 cs [])) (restartsOf 1 (ixE cfg 0 cs []))) := by
+    have e : tableFileM cfg cs fb M = (dataBytes cfg cs ++ filterSection cfg fb ++ M) ++
+          (withTrailer cfg.cksum (ixB cfg cs) ++ footer (metaBHOf cfg cs fb) (indexBHOf cfg cs fb)) := by
+      simp only [tableFileM, List.append_assoc]
+    have hA : (indexBHOf cfg cs fb) = ⟨(dataBytes cfg cs ++ filterSection cfg fb ++ M).length, (ixB cfg cs).length⟩ := by
+      simp only [indexBHOf, List.length_append, withTrailer_length, hM]
+    rw [e, hA]
+    exact readBlock_at hck (dataBytes cfg cs ++ filterSection cfg fb ++ M) _ _ _ true S.iLen
+  have hge : ¬ ((tableFileM cfg cs fb M).length < 48) := by omega
+  refine ⟨?_, ?_, ?_, hri⟩
+  · unfold Table.footerHandlesX
+    simp only [h48, h8, hge, if_false, hfoot, hmagic, ne_eq, not_true_eq_false, ReaderFix.repaired, decodeGo_true, hdm, hdi]
+  · have h1 := S.mOff
+    simp only [BH.inFile, h48, hlen, metaBHOf, List.length_append, withTrailer_length, hM, Bool.and_eq_true, decide_eq_true_eq]
+    omega
+  · simp only [BH.inFile, h48, hlen, indexBHOf, List.length_append, withTrailer_length, hM, Bool.and_eq_true, decide_eq_true_eq]
+    omega
+
 /-- what `NewReader` makes of a written file -/
 theorem open_shape (cfg : TableCfg) (hck : Cksum32 cfg.cksum) (cs : List (List KV)) (fb : Option Bytes)
     (hfb : fb.isSome = cfg.filter.isSome) (hsz : (tableFile cfg cs fb).length < 2 ^ 32)
@@ -181,27 +261,9 @@ theorem open_shape (cfg : TableCfg) (hck : Cksum32 cfg.cksum) (cs : List (List K
           (readFilterBlock cfg.cksum (tableFile cfg cs fb) ⟨(dataBytes cfg cs).length, b.length⟩).map fun r => (pol, r)
         | _, _ => none) := by
   have S := sizes_of cfg cs fb hsz
-  have h48 : Gen.footerLen = 48 := rfl
-  have h8 : Gen.tableMagic.length = 8 := rfl
-  have hlen : (tableFile cfg cs fb).length = (dataBytes cfg cs ++ filterSection cfg fb ++
-      withTrailer cfg.cksum (metaB cfg cs fb) ++ withTrailer cfg.cksum (ixB cfg cs)).length + 48 := by
-    rw [tableFile_eq, List.length_append, S.foot]
-  have hfoot : (tableFile cfg cs fb).drop ((tableFile cfg cs fb).length - 48) =
-      footer (metaBHOf cfg cs fb) (indexBHOf cfg cs fb) := by
-    rw [hlen, tableFile_eq, List.drop_left' (by omega)]
-  have hm10 := BH.encode_length_le _ S.mOff S.mLen
-  have hi10 := BH.encode_length_le _ S.iOff S.iLen
-  have hmagic : (footer (metaBHOf cfg cs fb) (indexBHOf cfg cs fb)).drop (48 - 8) = Gen.tableMagic := by
-    simp only [footer, h48, h8]
-    rw [List.drop_left' (by simp; omega)]
-  have hdm : BH.decode (footer (metaBHOf cfg cs fb) (indexBHOf cfg cs fb)) =
-      some (metaBHOf cfg cs fb, (metaBHOf cfg cs fb).encode.length) := by
-    simp only [footer, List.append_assoc]
-    exact BH.decode_encode _ _ (by have := S.mOff; omega) (by have := S.mLen; omega)
-  have hdi : BH.decode ((footer (metaBHOf cfg cs fb) (indexBHOf cfg cs fb)).drop (metaBHOf cfg cs fb).encode.length) =
-      some (indexBHOf cfg cs fb, (indexBHOf cfg cs fb).encode.length) := by
-    simp only [footer, List.append_assoc, List.drop_left]
-    exact BH.decode_encode _ _ (by have := S.iOff; omega) (by have := S.iLen; omega)
+  obtain ⟨hfh, hinM, hinI, hri⟩ := open_facts cfg hck cs fb (withTrailer cfg.cksum (metaB cfg cs fb))
+    (withTrailer_length _ _) hsz
+  rw [← tableFile_eqM] at hfh hinM hinI hri
   have hrm : readBlock cfg.cksum (tableFile cfg cs fb) (metaBHOf cfg cs fb) true =
       some (layoutR (enc cfg.restartInterval (metaKVs cfg (dataBytes cfg cs).length fb))
         (restartsOf cfg.restartInterval (metaKVs cfg (dataBytes cfg cs).length fb))) := by
@@ -211,15 +273,6 @@ theorem open_shape (cfg : TableCfg) (hck : Cksum32 cfg.cksum) (cs : List (List K
       rw [tableFile_eq]; simp only [List.append_assoc]
     rw [e]
     exact readBlock_at hck (dataBytes cfg cs ++ filterSection cfg fb) _ _ _ true S.mLen
-  have hri : readBlock cfg.cksum (tableFile cfg cs fb) (indexBHOf cfg cs fb) true =
-      some (layoutR (enc 1 (ixE cfg 0 cs [])) (restartsOf 1 (ixE cfg 0 cs []))) := by
-    have e : tableFile cfg cs fb = (dataBytes cfg cs ++ filterSection cfg fb ++
-        withTrailer cfg.cksum (metaB cfg cs fb)) ++
-          (withTrailer cfg.cksum (ixB cfg cs) ++ footer (metaBHOf cfg cs fb) (indexBHOf cfg cs fb)) := by
-      rw [tableFile_eq]; simp only [List.append_assoc]
-    rw [e]
-    exact readBlock_at hck (dataBytes cfg cs ++ filterSection cfg fb ++ withTrailer cfg.cksum (metaB cfg cs fb))
-      _ _ _ true S.iLen
   have hdl : (dataBytes cfg cs).length < 2 ^ 64 := by
     have := S.mOff; simp only [metaBHOf, List.length_append] at this; omega
   have hbl : ∀ b, fb = some b → b.length < 2 ^ 64 := by
@@ -228,9 +281,10 @@ theorem open_shape (cfg : TableCfg) (hck : Cksum32 cfg.cksum) (cs : List (List K
     simp only [metaBHOf, List.length_append, hb, filterSection, withTrailer_length] at this
     omega
   have hml := metaLoop_written cfg (dataBytes cfg cs).length fb hfb hdl hbl hname
-  unfold Table.open
-  have hge : ¬ ((tableFile cfg cs fb).length < 48) := by omega
-  simp only [h48, h8, hge, if_false, hfoot, hmagic, hdm, hdi, hrm, ne_eq, not_true_eq_false, hri]
+  unfold Table.open Table.openE Table.openX
+  rw [hfh]
+  simp only [Table.openBody, hinM, hinI, ReaderFix.repaired, readBlockX, if_true, hrm, hri, Bool.and_self, Bool.not_true,
+    Bool.and_false, Bool.false_eq_true, if_false]
   simp only [layoutR, hml]
   cases hf : cfg.filter with
   | none =>
@@ -304,12 +358,14 @@ theorem blocksOf_ixE (t : TableR) (cfg : TableCfg) (hck : Cksum32 cfg.cksum) (hc
     rw [List.length_append] at this
     rw [this]
 
-theorem smallKV_ix (cfg : TableCfg) (cs : List (List KV)) (fb : Option Bytes)
-    (hsz : (tableFile cfg cs fb).length < 2 ^ 32) : SmallKV (ixE cfg 0 cs []) := by
-  have S := sizes_of cfg cs fb hsz
+theorem smallKV_ix' (cfg : TableCfg) (cs : List (List KV)) (h2 : (ixB cfg cs).length < 2 ^ 32) :
+    SmallKV (ixE cfg 0 cs []) := by
   have h1 := build_length 1 (ixE cfg 0 cs [])
-  have h2 : (ixB cfg cs).length < 2 ^ 32 := S.iLen
   exact smallKV_of_enc1 _ 0 [] (by simp only [ixB] at h2; simp only [enc] at h1; omega)
+
+theorem smallKV_ix (cfg : TableCfg) (cs : List (List KV)) (fb : Option Bytes)
+    (hsz : (tableFile cfg cs fb).length < 2 ^ 32) : SmallKV (ixE cfg 0 cs []) :=
+  smallKV_ix' cfg cs (sizes_of cfg cs fb hsz).iLen
 
 theorem tableFile_data_prefix (cfg : TableCfg) (cs : List (List KV)) (fb : Option Bytes) :
     ∃ post, tableFile cfg cs fb = [] ++ (dataBytes cfg cs ++ post) :=
